@@ -167,6 +167,10 @@ add("c4_capture_up_to_size_fault", "input", desc="capture_up_to_size with a fail
 add("c4_capture_to_end_fault", "input", desc="capture_to_end with a failing source: Err, EOF not claimed",
     bounds="as above; fault offset any", functions=C_FUN[4:5], covers=["C2' capture_to_end propagates a fault"],
     props=["C12", "C09"], timeout=900, mem_gb=24, assumptions=C_SRC + C_RTE, replay="none")
+add("c2p_overclaim_panics", "input",
+    desc="a prefix request against a source that over-reports (claims more bytes than the buffer holds) ends in a clean panic - it never returns normally with bytes the source did not write (kani::should_panic: a panic and no memory-safety failure)",
+    bounds="over-report by 1..4 bytes, request size 1..3", functions=C_FUN[3:4], props=["C17", "C04"], timeout=600, mem_gb=10,
+    assumptions=C_RTE, replay="overclaim")
 add("c1_capture_programs", "input",
     desc="GuardedCaptureReader<Src>: 2 rounds of rewind + 2 partial reads, then rewind_and_take + into_inner; invariant after every operation; every borrow re-reads from byte 0",
     bounds="data <= 3 B, every read schedule, caller buffers 1..2", functions=C_FUN[:7],
@@ -271,7 +275,7 @@ add("g2_chunkreader_read", "yaml::chunker",
     covers=["G2 three bytes captured", "G2 reader error"], props=["C03", "C04", "C12", "C17"], timeout=300, mem_gb=8)
 add("g2_chunkreader_overclaim_panics", "yaml::chunker",
     desc="a reader that claims more bytes than the buffer holds ends in a clean panic (kani::should_panic: a panic and no memory-safety failure)",
-    bounds="buffer 0..4, claim any usize > size", functions=["yaml::chunker::ChunkReader::read"], props=["C17"], timeout=300, mem_gb=8)
+    bounds="buffer 0..4, claim any usize > size", functions=["yaml::chunker::ChunkReader::read"], props=["C17"], timeout=300, mem_gb=8, replay="overclaim")
 add("h1_read_handler_claims", "yaml::chunker::parser",
     desc="Parser::read_handler, two consecutive calls with arbitrary (also shrinking) buffer sizes and a reader claiming ANY length or failing: nothing written beyond buffer_size (canary + pointer checks), *size_read <= buffer_size, the reader is never offered more than buffer_size, failure stashes / success clears the error",
     bounds="destination 8 B, buffer_size 0..8 per call, claim any usize, 2 calls", functions=["yaml::chunker::parser::Parser::read_handler"],
